@@ -63,7 +63,63 @@ static size_t run_script(ZSTD_CCtx* c, const u8* src, size_t n, const step_t* st
     return produced;
 }
 
+/* driver 18 (C09 with workers): a pledged source size, right or wrong, on a multithreaded context.  "When the caller pledged a source size,
+ * compression succeeds only if exactly that many bytes were supplied": a wrong pledge must surface as an error by the end of the frame
+ * (whichever job the frame header was written by), a right one must give a frame whose header states it; the context is usable afterwards. */
+static void body_pledge(void) {
+    static const long long DL[] = {0, -1, 1, -700, 1ll << 32};
+    int workers = 1 + vx_choose(2), dk = vx_choose(6), script = vx_choose(3), big = vx_choose(2);
+    size_t n = big ? 3 * g_jobsize + 100 : 700;                       /* several jobs / a single job */
+    long long pledge = dk == 5 ? 0 : (long long)n + DL[dk];
+    vx_label("driver=18 workers=%d n=%zu pledge=%lld script=%d", workers, n, pledge, script);
+    fill_text(g_src, n, 23);
+    vs_config_t cfg; memset(&cfg, 0, sizeof cfg); cfg.pick = cb_pick; cfg.fail = cb_fail; cfg.horizon = 400000;
+    vs_begin(&cfg);
+    ZSTD_CCtx* c = ZSTD_createCCtx();
+    ZSTD_CCtx_setParameter(c, ZSTD_c_nbWorkers, workers); ZSTD_CCtx_setParameter(c, ZSTD_c_jobSize, (int)g_jobsize); ZSTD_CCtx_setParameter(c, ZSTD_c_windowLog, 10);
+    size_t e = ZSTD_CCtx_setPledgedSrcSize(c, (unsigned long long)pledge); int err = 0, done = 0; size_t produced = 0; const char* ename = "";
+    if (ZSTD_isError(e)) { vx_fail("driver 18: setPledgedSrcSize refused: %s", ZSTD_getErrorName(e)); }
+    else {
+        /* scripts: 0 = half with continue, rest with end; 1 = everything with continue, then an empty end; 2 = a third with flush and 9 bytes of room, rest with end */
+        size_t cut = script == 0 ? n / 2 : script == 1 ? n : n / 3; ZSTD_EndDirective d0 = script == 2 ? ZSTD_e_flush : ZSTD_e_continue; size_t cap = script == 2 ? 9 : (1u << 20);
+        ZSTD_inBuffer in = { g_src, cut, 0 };
+        for (int phase = 0; phase < 2 && !err; phase++) {
+            ZSTD_EndDirective dir = phase ? ZSTD_e_end : d0; if (phase) in.size = n;
+            for (long guard = 0; ; guard++) {
+                if (guard > 100000) { vx_fail("driver 18: no completion after 100000 calls"); err = 2; break; }
+                ZSTD_outBuffer o = { g_dst + produced, cap, 0 };
+                size_t r = ZSTD_compressStream2(c, &o, &in, dir); produced += o.pos;
+                if (ZSTD_isError(r)) { err = 1; ename = ZSTD_getErrorName(r); break; }
+                if (dir == ZSTD_e_continue ? in.pos == in.size : r == 0) { if (phase) done = 1; break; }
+            }
+        }
+    }
+    /* the context must be usable for an ordinary frame afterwards */
+    size_t r2 = 0;
+    if (err != 2 && !vx_failed) { ZSTD_CCtx_reset(c, ZSTD_reset_session_only); r2 = ZSTD_compress2(c, g_scratch, ZSTD_compressBound(n), g_src, n); }
+    ZSTD_freeCCtx(c);
+    long sw = vs_counter(4), pts = vs_steps();
+    vs_end();
+    if (vx_failed || err == 2) return;
+    if (pledge != (long long)n) {
+        if (done) { vx_fail("driver 18: frame completed with %zu bytes although %lld were pledged (%d workers, header states %llu)", n, pledge, workers, (unsigned long long)ZSTD_getFrameContentSize(g_dst, produced)); return; }
+        vx_stat_add("wrong_pledges_refused", 1);
+    } else {
+        if (!done) { vx_fail("driver 18: correct pledge refused: %s", ename); return; }
+        if (ZSTD_getFrameContentSize(g_dst, produced) != n) { vx_fail("driver 18: header states %llu for %zu pledged and supplied bytes", (unsigned long long)ZSTD_getFrameContentSize(g_dst, produced), n); return; }
+        size_t r = ZSTD_decompress(g_out, n + 32, g_dst, produced);
+        if (ZSTD_isError(r) || r != n || memcmp(g_out, g_src, n)) { vx_fail("driver 18: frame with a correct pledge does not decode to the input"); return; }
+    }
+    if (ZSTD_isError(r2)) { vx_fail("driver 18: context unusable after the pledged frame: %s", ZSTD_getErrorName(r2)); return; }
+    { size_t r = ZSTD_decompress(g_out, n + 32, g_scratch, r2); if (ZSTD_isError(r) || r != n || memcmp(g_out, g_src, n)) { vx_fail("driver 18: frame after the pledged frame does not decode to the input"); return; } }
+    vx_obs_u64((uint64_t)(done * 2 + err)); vx_obs_u64((uint64_t)pledge); vx_obs_u64((uint64_t)sw);
+    if (sw > 4) vx_nontrivial();
+    vx_stat_add("sched_points", pts);
+    if (vx_want_sample()) vx_sample("driver=18 workers=%d n=%zu pledge=%lld script=%d: %s | %ld sched points", workers, n, pledge, script, done ? "completed" : ename, pts);
+}
+
 static void body(void) {
+    if (g_driver == 18) { body_pledge(); return; }
     /* ---- driver configuration (free choices, made before any thread exists) ---- */
     int workers = 1, ldm = 0, checksum = 0, overlap = 0, dictMode = 0, level = 1, nsteps = 0, abortAt = -1, abortKind = 0, rsync = 0, workers2 = 0;
     size_t n = 0, jobsize = g_jobsize; int explicitWlog = 1, pairIdx = 0; step_t st[16]; memset(st, 0, sizeof st);
